@@ -4283,6 +4283,11 @@ EmitModSib:
               }
             }
             else {
+              // The address-size override also selects the size of the register that holds the destination address
+              // of ENQCMD[S] and MOVDIR64B, which has been validated as a 64-bit register at this point.
+              if (ASMJIT_UNLIKELY(inst_info->_encoding == InstDB::kEncodingX86EnqcmdMovdir64b))
+                goto InvalidAddress;
+
               // Any other instruction: Insert address-size override prefix.
               writer.insert8(mem_op_ao_mark, 0x67);
             }
